@@ -208,7 +208,7 @@ def gen_wo_case(rng, cid, lattice):
 
 def gen_wo_cases(tier, seed):
     rng = lib.rng_for(seed, PROP, "wo")
-    n = 6 if tier == "quick" else 40
+    n = 6 if tier == "quick" else 30
     return [gen_wo_case(rng, "c09_w%d" % i, lattice=(i % 2 == 1)) for i in range(n)]
 
 
@@ -395,7 +395,8 @@ def tie(tier, seed, replay):
                 mismatches=mism,
                 trusted_base=["gen/c09_pack.py renders the packagings (a wrong rendering shows as a false alarm, not as a silent pass: the expected answer comes from the logical program alone)",
                               "FRONT hook + gen/dl.py plan translation + Engine/Eval.v model for the base packaging; specification oracle strat_fix / naive_fix evaluated inside Coq",
-                              "rustc, cargo feature resolution, macro_rules expansion and span identity are exercised, not modelled: Pack/PackModel.v states the splice / last-wins / timeout-guard logic on token lists and declaration lists"],
+                              "rustc, cargo feature resolution, macro_rules expansion and span identity are exercised, not modelled: Pack/PackModel.v states the splice / last-wins / timeout-guard logic on token lists and declaration lists",
+                              "Pack/PackModel.v ascent_run_code (initialisers assigned, ONE index build, SCCs) is tied to the generated ascent_run! block on the packagings whose initialisers are the whole input (run_init, run_wo_init of programs fed by fact rules): rows compared with the model's as set + count, through the proved c09_init_is_input; lattice views are compared with the specification only (write-only lattice = one row per key holding the max of the derivable values)"],
                 assumptions=["column values are small i32 / i64; the generic packagings instantiate T with i32 or i64",
                              "ascent_run! programs receive their input through initialisers or rule bodies over captured locals (the two documented ways)"],
                 extra=dict(cases_skipped_model_too_slow=nskipped, packaging_jobs=len(jobs)))
